@@ -220,6 +220,7 @@ def geo_cases(tier):
                     if how == 'gmsh':
                         c['m'] = m; c['fmt'] = '2.2' if (conv + atm + len(chars)) % 2 else '4.1'
                     if how == 'rect' and not big and (nx + ny + nz + atm) % 3 == 0: c['switch'] = (nx + atm) % 2
+                    if how == 'rect' and not big and (nx + ny + nz + atm) % 5 == 1: c['relayer'] = True
                     yield c
     return g
 
@@ -274,6 +275,7 @@ def geo_random(draw):
     warm = draw(st.sampled_from([None, None, 0, 1, 2, 3]))
     if warm is not None and warm != conv: c['warm'] = warm
     if how != 'radial' and draw(st.integers(0, 3)) == 0: c['switch'] = draw(st.integers(0, 1))
+    if how == 'rect' and draw(st.integers(0, 4)) == 0: c['relayer'] = True
     nzmode = draw(st.integers(0, 2))
     nz = near(layeff) if nzmode == 0 else draw(st.integers(1, 6))
     if how == 'rect':
@@ -649,6 +651,8 @@ def _judge_blocks(R, g, atm, ncols, nz):
         cn, ln = g.column_name(b), g.layer_name(b)
         ok = R.check(cn == colname, 'inverse:column' + (':atmosphere' if isatm else ''),
                      'block %r built from column %r, layer %r: column_name gives %r' % (b, colname, lay.name, cn))
+        R.check(g.layer.get(ln) is lay, 'inverse:layer-part-is-not-that-layer-in-the-geometry',
+                lambda: 'block %r: its layer part %r looks up %r in geo.layer; it was built from layer %r' % (b, ln, getattr(g.layer.get(ln), 'name', None), lay.name))
         ok &= bool(R.check(ln == lay.name, 'inverse:layer' + (':atmosphere' if isatm else ''),
                            'block %r built from column %r, layer %r: layer_name gives %r' % (b, colname, lay.name, ln)))
         return ok
@@ -779,6 +783,17 @@ def run_geo(case, R):
         if len(R.findings) == before:
             judge_mulgrid(R, g, case, chars, ncols, nnodes, nz, blocks_only=True)
             R.findings[before:] = [('switched-back:' + sg, d) for sg, d in R.findings[before:]]
+    # ... and after its layers were regenerated: the surface layer given another (free) name, then every layer refined
+    if how == 'rect' and not over and not R.findings and case.get('relayer') and 2 * nz <= layeff:
+        free = [n for n in ('sf', 'zz', 'qq') if n.rjust(len(g.layerlist[0].name)) not in g.layer]
+        if free:
+            R.label('geo:surface-layer-renamed-then-refine_layers')
+            with R.lib('rename_layer'): g.rename_layer(g.layerlist[0].name, free[0].rjust(len(g.layerlist[0].name)))
+            with R.lib('refine_layers'): g.refine_layers()
+            before = len(R.findings)
+            judge_mulgrid(R, g, case, chars, ncols, nnodes, 2 * nz, blocks_only=True)
+            R.findings[before:] = [('relayered:' + sg, d) for sg, d in R.findings[before:]]
+            return
     # a geometry constructed by reading a file is a geometry the library constructs: the same names, judged the same way
     if how != 'radial' and not over and not R.findings and just == 'r':       # (the file format right-justifies names)
         fn = os.path.join(R.tmp, 'geo.dat')
